@@ -44,7 +44,8 @@ type Func struct {
 	Recv  *types.Var
 	nlits int
 
-	defs *defInfo
+	defs          *defInfo
+	decodeTargets map[types.Object]bool
 }
 
 func (f *Func) Info() *types.Info { return f.Pkg.TypesInfo }
